@@ -27,10 +27,13 @@ type c01Config struct {
 	PrevAge  time.Duration
 	Stalls   bool
 	Cycles   int
+	// IOErrors: number of transient I/O errors (an operation returns EIO instead of its effect) injected at
+	// drawn operations of drawn clients (0..2)
+	IOErrors int
 }
 
 func (c c01Config) String() string {
-	return fmt.Sprintf("clients=%d override=%v deadprev=%d prevage=%v stalls=%v cycles=%d", c.Clients, c.Override, c.DeadPrev, c.PrevAge, c.Stalls, c.Cycles)
+	return fmt.Sprintf("clients=%d override=%v deadprev=%d prevage=%v stalls=%v cycles=%d transientIOErrors=%d", c.Clients, c.Override, c.DeadPrev, c.PrevAge, c.Stalls, c.Cycles, c.IOErrors)
 }
 
 func runC01(rc *RunCtx) {
@@ -41,6 +44,7 @@ func runC01(rc *RunCtx) {
 		DeadPrev: ch.Pick("deadprev", 5, 3, 2),
 		Stalls:   ch.Pick("stalls", 4, 1) == 1,
 		Cycles:   ch.Range("cycles", 1, 3),
+		IOErrors: ch.Pick("ioerrors", 6, 2, 1),
 	}
 	if cfg.DeadPrev == 1 {
 		cfg.PrevAge = []time.Duration{150 * time.Millisecond, 10 * time.Second, 10 * time.Millisecond, 99 * time.Millisecond}[ch.Intn("prevage", 4)]
@@ -59,6 +63,42 @@ func runC01(rc *RunCtx) {
 		}
 		w = newLockWorld(rc, sim, cfg.Clients, cfg.Override)
 		w.stalls = cfg.Stalls
+		if cfg.IOErrors > 0 {
+			// transient I/O errors: the k-th operation released for a drawn client fails without effect
+			// either the k-th operation of the client whatever it is, or - the acquisition hinges on it - its k-th mkdir
+			type target struct {
+				client, at int
+				mkdir      bool
+			}
+			var targets []target
+			for i := 0; i < cfg.IOErrors; i++ {
+				t := target{client: 1 + ch.Intn("ioclient", cfg.Clients), at: ch.Intn("ioat", 400), mkdir: ch.Intn("iomkdir", 2) == 1}
+				if t.mkdir {
+					t.at = ch.Intn("iomkdirat", 6)
+				}
+				targets = append(targets, t)
+			}
+			seen, seenMk := map[int]int{}, map[int]int{}
+			sim.Decide = func(op *Op) *Fault {
+				idx := seen[op.Client]
+				seen[op.Client]++
+				mk := -1
+				if op.Name == "mkdir" {
+					mk = seenMk[op.Client]
+					seenMk[op.Client]++
+				}
+				for _, t := range targets {
+					if t.client == op.Client && ((!t.mkdir && t.at == idx) || (t.mkdir && t.at == mk)) {
+						rc.Res.Fault("transient-io-error")
+						if t.mkdir {
+							rc.Res.Fault("transient-io-error-on-lock-mkdir")
+						}
+						return &Fault{Err: errTransientIO}
+					}
+				}
+				return nil
+			}
+		}
 		if cfg.DeadPrev == 1 {
 			v := w.disk.View(99)
 			_ = v.Mkdir(w.lockDir, 0o755)
@@ -112,7 +152,9 @@ func runC01(rc *RunCtx) {
 						err = cl.lock.Lock(cl.ctx)
 					default:
 						how = "LockWithTimeout"
-						err = cl.lock.LockWithTimeout(cl.ctx, st.timeout)
+						// off the grid of operation latencies and retry waits: a timeout that expires at the very instant
+						// the retry loop wakes up would leave the order of the two to the Go runtime
+						err = cl.lock.LockWithTimeout(cl.ctx, st.timeout+13*time.Microsecond+time.Duration(cl.id))
 					}
 					if cl.dead {
 						return
